@@ -1,7 +1,7 @@
 """C08, C12 — the regex radix tree (RadixOps.tla, RadixTree.tla, PrefixChar.tla)."""
 import json
 import os
-from vlib import Check, ToolError, tlc_mc, run_harness, tlc_validate, workdir, require_actions, build_harness, log
+from vlib import Check, ToolError, tlc_mc, run_harness, tlc_validate, workdir, require_actions, build_harness, log, apalache_inductive
 
 import p_router as _pr
 CLASSES = {
@@ -61,6 +61,8 @@ def run_prop(prop, tier):
     if prop == "C12":
         # design-level liveness of Router::cache's retry loop (terminates for every behaviour of the matcher's cache contract)
         c.add_mc(tlc_mc("RouterCacheLoop", "RouterCacheLoop.cfg", wd, workers=4, coverage=False))
+        # ... and, for an unbounded budget, the inductive invariant behind LevelBound / GivesUpLate (Apalache)
+        c.extra["apalache_obligations_discharged"] = apalache_inductive("RouterCacheLoopInd", wd)
         import p_router
         p_router.router_part(c, wd, "C12", tier)
     c.assumptions = ["patterns are token sequences over the literals a b / . and the marker groups of RadixOps.tla; the model's "
